@@ -5,13 +5,6 @@
 
 namespace sse
 {
-    struct Finding
-    {
-        std::string sig;  // without the property prefix
-        std::string detail;
-    };
-    using Findings = std::vector<Finding>;
-
     struct FlowInputs
     {
         const RefGeom* geo = nullptr;
